@@ -1,6 +1,7 @@
 """
 pyvc.state -- symbolic state (path condition, locals, heap) and solver helpers.
 """
+import os
 import z3
 from . import z as Z
 from .heap import Heap
@@ -72,15 +73,33 @@ class State:
     def check(self, *extra):
         """z3 result of pc /\\ extra"""
         import time
-        s = self._get_solver()
+        # a fresh, non-incremental solver per query: z3's incremental mode (push/pop) is markedly
+        # weaker on quantified / string problems (measured: unknown@4s vs unsat@0.25s on the same query)
         t0 = time.time()
-        s.push()
+        # E-matching only (smt.mbqi off, as Boogie/Dafny do): a satisfiable query with quantifiers then comes
+        # back "unknown" in milliseconds instead of burning the timeout in model-based instantiation
+        s = z3.Solver()
+        s.set('timeout', QUERY_TIMEOUT_MS)
+        s.set('smt.mbqi', False)
+        s.set('smt.qi.max_instances', int(os.environ.get('PYVC_QI_MAX', '3000')))
+        for p_ in self.pc:
+            s.add(p_)
         for e in extra:
             s.add(e)
         r = s.check()
-        s.pop()
         STATS['queries'] += 1
-        STATS['query_s'] += time.time() - t0
+        dt = time.time() - t0
+        STATS['query_s'] += dt
+        if dt > 1.0 and os.environ.get('PYVC_TRACE'):
+            s2 = z3.Solver()
+            for p_ in self.pc:
+                s2.add(p_)
+            for e in extra:
+                s2.add(e)
+            STATS.setdefault('dumps', 0)
+            STATS['dumps'] += 1
+            open('/tmp/slow_%d.smt2' % STATS['dumps'], 'w').write(s2.to_smt2())
+            print("  [slow query %.1fs -> %s] pc=%d extra=%s" % (dt, r, len(self.pc), [str(e)[:300] for e in extra]))
         return r
 
     def feasible(self, phi=None):
